@@ -13,24 +13,53 @@
 -/
 import Bisquitt.Model.Cli
 import Bisquitt.Gen.Facts
+import Bisquitt.Model.Client
 
-namespace Bisquitt.Cli
-open Bisquitt
+namespace Bisquitt.Cl
+open Bisquitt Cl
 
-/-- **C31 (the guards in the code).** -/
-theorem c31_guard_facts :
-    Gen.cliGuard_bisquitt = ["authEnabled && !useDTLS && !c.Bool(InsecureFlag)"] ∧
-    Gen.cliGuard_bisquitt_pub = ["c.IsSet(UserFlag) && !useDTLS && !insecure"] ∧
-    Gen.cliGuard_bisquitt_sub = ["c.IsSet(UserFlag) && !useDTLS && !insecure"] := ⟨rfl, rfl, rfl⟩
+theorem armConnectTimer_frame (c : Cl) (id : Nat) :
+    (c.armConnectTimer id).outs = c.outs ∧ (c.armConnectTimer id).now = c.now ∧ (c.armConnectTimer id).cfg = c.cfg ∧
+    (c.armConnectTimer id).connClosed = c.connClosed := by
+  unfold armConnectTimer; split <;> exact ⟨rfl, rfl, rfl, rfl⟩
 
-/-- **C31.** The guard refuses exactly when credentials would travel in plaintext without consent. -/
-theorem c31_refuses_iff (creds dtls insecure : Bool) :
-    refusesToStart creds dtls insecure = true ↔ creds = true ∧ dtls = false ∧ insecure = false := by
-  cases creds <;> cases dtls <;> cases insecure <;> simp [refusesToStart]
+theorem sendConnect_user (c : Cl) (call : String) (id i : Nat) (u : Bytes) (hu : c.cfg.user = some u)
+    (ho : c.connClosed = false) :
+    (c.sendConnect call id i).outs =
+      (c.now, Out.sn (encode (plainAuth u c.cfg.pass))) :: (c.now, Out.sn (encode c.connectPkt)) :: c.outs := by
+  unfold sendConnect; simp [ho, hu, emit, connectPkt]
 
-/-- **C31.** A tool that starts with credentials configured runs over DTLS or was told `--insecure`. -/
-theorem c31_never_plaintext (creds dtls insecure : Bool) (hstart : refusesToStart creds dtls insecure = false)
-    (hc : creds = true) : dtls = true ∨ insecure = true := by
-  cases creds <;> cases dtls <;> cases insecure <;> simp_all [refusesToStart]
+theorem sendConnect_nouser (c : Cl) (call : String) (id i : Nat) (hu : c.cfg.user = none) (ho : c.connClosed = false) :
+    (c.sendConnect call id i).outs = (c.now, Out.sn (encode c.connectPkt)) :: c.outs := by
+  unfold sendConnect; simp [ho, hu, emit, connectPkt]
 
-end Bisquitt.Cli
+/-- **C31 (client library).** Every CONNECT the client sends — the first one and every retry of
+    the connect loop go through `connectAttempt` — is followed at once by AUTH PLAIN with the
+    configured credentials when a user is configured … -/
+theorem c31_client_auth_after_connect (c : Cl) (call : String) (i : Nat) (u : Bytes) (hu : c.cfg.user = some u)
+    (ho : c.connClosed = false) :
+    (c.connectAttempt call i).outs =
+      (c.now, Out.sn (encode (plainAuth u c.cfg.pass))) :: (c.now, Out.sn (encode c.connectPkt)) :: c.outs := by
+  unfold connectAttempt
+  have h := armConnectTimer_frame ((c.newTx .connect .connect).2.store .connect c.nextTx) c.nextTx
+  rw [sendConnect_user _ _ _ _ u (by rw [h.2.2.1]; exact hu) (by rw [h.2.2.2]; exact ho)]
+  have hcfg : (((c.newTx .connect .connect).2.store .connect c.nextTx).armConnectTimer c.nextTx).cfg = c.cfg :=
+    h.2.2.1.trans rfl
+  rw [h.1, h.2.1]
+  simp only [connectPkt, hcfg]
+  rfl
+
+/-- … and by nothing when no user is configured: the CONNECT alone. -/
+theorem c31_client_no_auth_without_user (c : Cl) (call : String) (i : Nat) (hu : c.cfg.user = none)
+    (ho : c.connClosed = false) :
+    (c.connectAttempt call i).outs = (c.now, Out.sn (encode c.connectPkt)) :: c.outs := by
+  unfold connectAttempt
+  have h := armConnectTimer_frame ((c.newTx .connect .connect).2.store .connect c.nextTx) c.nextTx
+  rw [sendConnect_nouser _ _ _ _ (by rw [h.2.2.1]; exact hu) (by rw [h.2.2.2]; exact ho)]
+  have hcfg : (((c.newTx .connect .connect).2.store .connect c.nextTx).armConnectTimer c.nextTx).cfg = c.cfg :=
+    h.2.2.1.trans rfl
+  rw [h.1, h.2.1]
+  simp only [connectPkt, hcfg]
+  rfl
+
+end Bisquitt.Cl
